@@ -187,7 +187,7 @@ class Port(Base):
     def ports(self, ports: IInt) -> None:
         if not isinstance(ports, (set, list, tuple)):
             raise TypeError(f"{ports=} {list} expected")
-        ports = list(ports)
+        ports = sorted(ports)
         items_ = self._ports_to_items(ports)
         items = [str(i) for i in items_]
         items.insert(0, self.operator)
